@@ -847,7 +847,18 @@ namespace fsh
             std::size_t idx;
             double best;
             double out;
+            double bias = 1e9;   // set to 0 by node_data_init (when the kernel has one) or at creation
         };
+        static std::atomic<long>& knode_created()
+        {
+            static std::atomic<long> c{ 0 };
+            return c;
+        }
+        static std::atomic<long>& knode_freed()
+        {
+            static std::atomic<long> c{ 0 };
+            return c;
+        }
 
         void call_kernel(Line& l)
         {
@@ -861,7 +872,7 @@ namespace fsh
             k.func = [](void* p)
             {
                 auto* nd = static_cast<KNode*>(p);
-                nd->out = nd->best + 1.0;
+                nd->out = nd->best + 1.0 + nd->bias;
                 return 0;
             };
             k.node_data_getter = [](std::size_t i, void* d, void* p)
@@ -891,9 +902,37 @@ namespace fsh
                 static_cast<KData*>(d)->visits[i] += 1;
                 return 0;
             };
-            k.node_data_create = []() -> void* { return new KNode(); };
-            k.node_data_init = nullptr;
-            k.node_data_free = [](void* p) { delete static_cast<KNode*>(p); };
+            // with an init function the node data is created "dirty" and cleaned by init; without one it
+            // is created clean: either way every node data must be created once, initialised when an
+            // init function is given, and freed once
+            const bool with_init = (min_block + min_level) % 2 == 0;
+            knode_created() = 0;
+            knode_freed() = 0;
+            if (with_init)
+            {
+                k.node_data_create = []() -> void*
+                {
+                    ++knode_created();
+                    return new KNode();
+                };
+                k.node_data_init = [](void* p, void*) { static_cast<KNode*>(p)->bias = 0.0; };
+            }
+            else
+            {
+                k.node_data_create = []() -> void*
+                {
+                    ++knode_created();
+                    auto* nd = new KNode();
+                    nd->bias = 0.0;
+                    return nd;
+                };
+                k.node_data_init = nullptr;
+            }
+            k.node_data_free = [](void* p)
+            {
+                ++knode_freed();
+                delete static_cast<KNode*>(p);
+            };
             k.n_threads = threads;
             k.min_block_size = min_block;
             k.min_level_size = min_level;
@@ -912,6 +951,7 @@ namespace fsh
                 for (auto v : data.visits)
                     once = once && v == 1;
                 os << "O kvisits " << (once ? 1 : 0) << "\n";
+                os << "O knodes " << knode_created().load() << ' ' << knode_freed().load() << "\n";
             }
             catch (const std::exception& ex)
             {
